@@ -11,7 +11,8 @@ half-closed stream.
 Request semantics (from the client's own retry table in stream_manager.py, the
 StreamError.Code enum and the race described in stream_manager_test.py):
 
-  create_quantum_program_and_job   program exists -> PROGRAM_ALREADY_EXISTS
+  create_quantum_program_and_job   program exists -> PROGRAM_ALREADY_EXISTS (or, when the job exists too,
+                                   JOB_ALREADY_EXISTS: tape's choice)
                                    else create both, reply when the job finishes
   create_quantum_job               program missing -> PROGRAM_DOES_NOT_EXIST
                                    job exists -> JOB_ALREADY_EXISTS; else create, reply when finished
@@ -283,6 +284,12 @@ class ModelQuantumEngine:
             body = req.create_quantum_program_and_job
             pname, jname = body.quantum_program.name, body.quantum_job.name
             if pname in self.programs:
+                # Both ids taken (the create was carried out before the stream broke and is sent again): the
+                # service may name either conflict; the client documents a way on from both.  Drawn only in
+                # this state, so runs that never reach it keep their tape.
+                if jname in self.jobs and self.sim.tape.chance(1, 2, "job-conflict-named-first?"):
+                    self.ctx.probe("w3:JOB_ALREADY_EXISTS-on-create-both")
+                    return self._error(st, mid, Code.JOB_ALREADY_EXISTS)
                 self.ctx.probe("w3:PROGRAM_ALREADY_EXISTS")
                 return self._error(st, mid, Code.PROGRAM_ALREADY_EXISTS)
             self.programs.add(pname)
